@@ -64,3 +64,7 @@ def same(a, b):
     tb = isinstance(b, (_rdt.date, core.SymDatetime)) or (core.is_sym(b) and b.__class__ in (_rdt.datetime, _rdt.date))
     if ta or tb: return (a == b) if (ta and tb) else False
     return X.Or(a == b, X.And(is_nan(a), is_nan(b)))
+
+def same_eq(a, b):
+    """python's == between two cells (no NaN special case), proxies or plain"""
+    return a == b
